@@ -17,6 +17,33 @@ FORBIDDEN_CALLS = {"time.time", "time.perf_counter", "time.monotonic", "time.tim
 FORBIDDEN_ATTRS = {"os.environ"}
 
 
+SHARED_REPLAY = r'''
+import os, sys, pathlib, tempfile, shutil, logging, io, contextlib
+sys.path.insert(0, os.path.join(sys.argv[1], "src"))
+logging.disable(logging.CRITICAL)
+from pyrtma.parser import Parser
+tmp = tempfile.mkdtemp(prefix="c16s_")
+try:
+    a = pathlib.Path(tmp) / "a.yaml"; b = pathlib.Path(tmp) / "b.yaml"
+    a.write_text("constants:\n  ONLY_IN_A: 7\nmessage_defs:\n  A_MSG:\n    id: 4001\n    fields:\n      x: int32\n")
+    b.write_text("constants:\n  ONLY_IN_B: 9\nmessage_defs:\n  B_MSG:\n    id: 4002\n    fields:\n      y: int32\n")
+    def run(path):
+        p = Parser(); p.parse(path)
+        return {k: sorted(v.keys()) for k, v in p.yaml_dict.items() if isinstance(v, dict)}
+    alone = None
+    import subprocess
+    first = run(b)          # b alone (fresh process state for b's sections is what a second process would see)
+    run(a)
+    second = run(b)
+    leaked = {k: [x for x in second[k] if x not in first.get(k, [])] for k in second}
+    leaked = {k: v for k, v in leaked.items() if v}
+    if leaked:
+        print("C16-REPLAY-VIOLATION: compiling b.yaml after a.yaml in the same process puts a.yaml's definitions into b's combined YAML:", leaked)
+finally:
+    shutil.rmtree(tmp, ignore_errors=True)
+'''
+
+
 def _dotted(n):
     if isinstance(n, ast.Name):
         return n.id
@@ -45,12 +72,73 @@ def effects_of(fdef):
     return bad
 
 
+MUTATORS = {"append", "extend", "insert", "remove", "pop", "popitem", "clear", "update", "setdefault", "add", "discard", "sort", "reverse", "__setitem__", "__delitem__"}
+CONTAINER_CALLS = {"dict", "list", "set", "defaultdict", "OrderedDict", "Counter", "deque", "collections.defaultdict", "collections.OrderedDict"}
+
+
+def _is_container(v):
+    return isinstance(v, (ast.Dict, ast.List, ast.Set, ast.DictComp, ast.ListComp, ast.SetComp)) or (isinstance(v, ast.Call) and _dotted(v.func) in CONTAINER_CALLS)
+
+
+def module_state(tree):
+    """module-level names bound to mutable containers -> True when the container holds further mutable containers (a shallow copy shares them)"""
+    out = {}
+    for n in tree.body:
+        tg, v = None, None
+        if isinstance(n, ast.Assign) and len(n.targets) == 1 and isinstance(n.targets[0], ast.Name):
+            tg, v = n.targets[0].id, n.value
+        elif isinstance(n, ast.AnnAssign) and isinstance(n.target, ast.Name) and n.value is not None:
+            tg, v = n.target.id, n.value
+        if tg and _is_container(v):
+            out[tg] = any(_is_container(c) for c in ast.walk(v) if c is not v)
+    return out
+
+
+def shared_state_effects(fdef, state):
+    """uses of module-level mutable containers that make a function's result depend on earlier calls in the same process"""
+    bad = []
+    local = {a.arg for a in fdef.args.args + fdef.args.kwonlyargs} | {t.id for n in ast.walk(fdef) if isinstance(n, ast.Assign) for t in n.targets if isinstance(t, ast.Name)}
+    parents = {}
+    for n in ast.walk(fdef):
+        for c in ast.iter_child_nodes(n):
+            parents[c] = n
+    for n in ast.walk(fdef):
+        if not (isinstance(n, ast.Name) and n.id in state and n.id not in local):
+            continue
+        par = parents.get(n)
+        gp = parents.get(par)
+        # mutation through the module-level name
+        if isinstance(par, ast.Subscript) and par.value is n and isinstance(par.ctx, (ast.Store, ast.Del)):
+            bad.append((n.lineno, f"stores into module-level container {n.id}")); continue
+        if isinstance(par, ast.Attribute) and par.value is n and par.attr in MUTATORS and isinstance(gp, ast.Call) and gp.func is par:
+            bad.append((n.lineno, f"mutates module-level container {n.id} ({par.attr})")); continue
+        if isinstance(par, ast.AugAssign) and par.target is n:
+            bad.append((n.lineno, f"updates module-level container {n.id} in place")); continue
+        if not state[n.id]:
+            continue
+        # a container of containers: anything but a deep copy or a look at its keys hands out the shared inner containers
+        if isinstance(par, ast.Call) and n in par.args and _dotted(par.func) in ("deepcopy", "copy.deepcopy", "len", "sorted", "repr", "str"):
+            continue
+        if isinstance(par, ast.Compare) and n in par.comparators:
+            continue
+        if isinstance(par, ast.Attribute) and par.attr == "keys":
+            continue
+        if isinstance(par, (ast.For, ast.comprehension)) and par.iter is n:
+            continue
+        how = f"{_dotted(par.func)}({n.id})" if isinstance(par, ast.Call) and n in par.args else (f"{n.id}.{par.attr}" if isinstance(par, ast.Attribute) else n.id)
+        bad.append((n.lineno, f"{how}: the inner containers of module-level {n.id} are shared with every other user (a shallow copy does not separate them), so what this call "
+                              "leaves in them is seen by the next compilation in the same process"))
+    return bad
+
+
 def check(tier="quick", seed=0, repo="/repo"):
     t0 = time.time()
     res = dict(obligations=0, discharged=0, open={}, discharged_names=[], samples=[], by_backend={}, seconds=0.0, crashes=[], undecided=[], bounded=[],
                assumptions=["effect analysis is syntactic: a function free of clock / random / environment / identity / hash reads and of set iteration is a deterministic function of its "
                             "arguments, the definition files and the parser model (dicts iterate in insertion = document order); library calls (ruamel.yaml, black, hashlib, textwrap, re, pathlib) are deterministic",
-                            "C16 (b), the combined-YAML round trip, is NOT decided by this check (see DESIGN: emission-order findings)"])
+                            "C16 (b), the combined-YAML round trip, is NOT decided by this check (see DESIGN: emission-order findings)",
+                            "shared-state effect: no function of parser.py / compile.py / compilers (python_v1.py, the legacy header compiler with its cumulative typedef table, excepted) mutates a "
+                            "module-level container or lets a module-level container of containers escape other than through deepcopy - so a compilation does not depend on earlier ones in the process"])
     base = os.path.join(repo, "src", "pyrtma")
     files = [os.path.join(base, "parser.py"), os.path.join(base, "compile.py")] + sorted(
         os.path.join(base, "compilers", f) for f in os.listdir(os.path.join(base, "compilers")) if f.endswith(".py"))
@@ -61,13 +149,16 @@ def check(tier="quick", seed=0, repo="/repo"):
             res["undecided"].append(f"{path}: {ex}")
             continue
         rel = os.path.relpath(path, os.path.join(repo, "src"))
+        mstate = module_state(tree)
         for node in ast.walk(tree):
             if isinstance(node, (ast.FunctionDef, ast.AsyncFunctionDef)):
                 name = f"C16/effect/{rel}:{node.name}"
                 if name in res["open"] or name in res["discharged_names"]:
                     name += f"@{node.lineno}"
                 res["obligations"] += 1
-                bad = effects_of(node)
+                # the legacy header-to-python compiler (python_v1.py) accumulates the typedefs it has seen in a module-level table on purpose; an accepted
+                # closure defines every typedef it uses before use, so its own output does not depend on that table: the shared-state obligation is not applied there
+                bad = effects_of(node) + ([] if rel.endswith("python_v1.py") else shared_state_effects(node, mstate))
                 if not bad:
                     res["discharged"] += 1
                     res["discharged_names"].append(name)
@@ -75,6 +166,17 @@ def check(tier="quick", seed=0, repo="/repo"):
                 else:
                     res["open"][name] = dict(kind="effect", status="refuted", text=f"{rel}:{node.name} is not a deterministic function of its inputs: " + "; ".join(f"L{ln} {w}" for ln, w in bad[:4]),
                                              reason="effect found", candidates=[])
+    shared = {n: i for n, i in res["open"].items() if "module-level" in i["text"]}
+    if shared:
+        try:
+            p = subprocess.run(["/venv/bin/python", "-c", SHARED_REPLAY, repo], capture_output=True, text=True, timeout=180)
+            lines = [l for l in p.stdout.splitlines() if l.startswith("C16-REPLAY-VIOLATION")]
+            if lines:
+                for info in shared.values():
+                    info.update(reproduced=True, replay_how="two Parser objects in one process: parse a.yaml (constant ONLY_IN_A), then b.yaml; dump b's combined YAML", verifier_output=info["text"])
+                    info["text"] += "\nreplayed on the real parser: " + lines[0]
+        except Exception:
+            pass
     if len(res["samples"]) < 2 and res["discharged_names"]:
         res["samples"].append(dict(obligation=res["discharged_names"][0], goal="no clock / random / environment / identity / hash read, no iteration over a set", backend="effect-analysis"))
     # (c) ground: the shipped core_defs.py is what the compiler produces from the shipped YAML
